@@ -126,10 +126,11 @@ func c10Parallel(n int, f func(i int)) {
 					return
 				}
 				f(i)
+				guardProgress.Add(1)
 			}
 		}()
 	}
-	wg.Wait()
+	guardedWait(&wg)
 }
 
 // c10RunVegeta runs the real binary; timedOut is a watchdog (inconclusive), never a verdict.
